@@ -711,6 +711,10 @@ func init() {
 	}
 	intrinsics["runtime.NumCPU"] = func(e *Exec, a []Value) Value { return VInt{mint(4)} }
 	intrinsics["runtime.GOMAXPROCS"] = func(e *Exec, a []Value) Value { return VInt{mint(4)} }
+	intrinsics["strings.EqualFold"] = func(e *Exec, a []Value) Value {
+		return VBool{BoolC(strings.EqualFold(strArg(a[0]), strArg(a[1])))}
+	}
+	intrinsics["strings.ToLower"] = func(e *Exec, a []Value) Value { return VStr{strings.ToLower(strArg(a[0]))} }
 	intrinsics["strings.Contains"] = func(e *Exec, a []Value) Value {
 		return VBool{BoolC(strings.Contains(strArg(a[0]), strArg(a[1])))}
 	}
